@@ -449,8 +449,8 @@ class C15(Check):
                     got = 'ok %s %s' % ('+'.join(canon_item(i) for i in s.seq), enc(s.selectorText))
                     # oracle: the text written with the selector's own prefixes re-resolves to the same items
                     s2 = c.css.Selector((s.selectorText, dict(d)))
-                    a = [(i.type, i.value) for i in s.seq]
-                    b = [(i.type, i.value) for i in s2.seq]
+                    a = [norm_item((i.type, i.value)) for i in s.seq]
+                    b = [norm_item((i.type, i.value)) for i in s2.seq]
                     if a != b:
                         kid = KnownRegions.detached(d, a)
                         ctx.violate('the serialisation of every selector re-resolves to the same (URI, name) pairs',
@@ -539,6 +539,14 @@ class Probe:
         pass
 
 
+def norm_item(it):
+    """an attribute name in the namespace '' is an attribute name in no namespace: [|a] and [a] denote the same"""
+    t, v = it
+    if t == 'attribute-selector' and isinstance(v, tuple) and v[0] == '':
+        return (t, v[1])
+    return it
+
+
 def item_diffs(items, items2):
     """pairs (item, reparsed item) that differ; None when the shapes differ"""
     if len(items) != len(items2):
@@ -551,7 +559,7 @@ def item_diffs(items, items2):
             if len(s1) != len(s2):
                 return None
             for a, b in zip(s1, s2):
-                if a != b:
+                if norm_item(a) != norm_item(b):
                     out.append((a, b))
     return out
 
